@@ -81,6 +81,16 @@ def run(rep, tier, seed, replay):
                 rep.violation(f"syntaxes disagree: librato vs {st} (all parsers enabled)",
                               dict(payload, obs={k: v["raw"] for k, v in obs.items()}))
                 break
+        # the equivalence holds under every flag set that enables the syntax used: alone, and with DogStatsD
+        for st in STYLES:
+            for fl in ((BIT[st], BIT[st] | 1) if st != "dogstatsd" else (1,)):
+                o = by[(di, st, fl, "plain")]
+                if o["panic"]:
+                    rep.violation("panic", dict(payload, flags=fl, obs=o["raw"])); break
+                if o["events"] != ref["events"] or o["TR"] != ref["TR"] or (st != "dogstatsd" and o["TE"] != ref["TE"]):
+                    rep.violation(f"{st} tags are not interpreted (or interpreted differently) when only {st}{' and DogStatsD' if fl & 1 and st != 'dogstatsd' else ''} parsing is enabled",
+                                  dict(payload, flags=fl, obs=o["raw"], reference=ref["raw"]))
+                    break
         # a malformed tag is counted in every syntax
         nbad = sum(1 for t in ts if t[0] == "bare" or not t[1] or not t[2])
         if ref["TE"] != nbad:
@@ -117,7 +127,7 @@ def run(rep, tier, seed, replay):
         if len(rep.violations) >= 5:
             break
         rep.violation("implementation differs from the proved model (line engine)",
-                      dict(engine="line", flags=fl, line_hex=vf.hexs(c), line=repr(c), impl=i, model=m,
+                      dict(engine="line", flags=fl, line_hex=vf.hexs(c[1]), line=repr(c[1]), impl=i, model=m,
                            note="no clause of C09 is violated by this case on the implementation" if not rep.violations else ""),
                       no_input=not rep.violations)
     rep.extra["input_distribution"] = dist
